@@ -34,6 +34,10 @@ type HarnessCfg struct {
 	MaxPaths     int              `json:"max_paths,omitempty"`
 	Preempt      int              `json:"preempt,omitempty"`
 	PreemptLocks bool             `json:"preempt_locks,omitempty"`
+	// FaultModel: counterexamples contain faults injected by the engine's own
+	// models (file-system crash points) that have no native counterpart; they
+	// are reported on the engine's verdict, the native replay being informative.
+	FaultModel bool `json:"fault_model,omitempty"`
 	What         string           `json:"what,omitempty"`
 }
 
@@ -263,16 +267,17 @@ func cmdCheck(args []string) int {
 		path   string
 		sample bool
 		pkg    string
+		fault  bool
 	}
 	var pend []pending
 	for _, hr := range results {
 		for _, v := range hr.res.Violations {
 			p := writeReplay(replayDir, v, tier, hr.cfg, false)
-			pend = append(pend, pending{v, p, false, hr.cfg.Pkg})
+			pend = append(pend, pending{v, p, false, hr.cfg.Pkg, hr.cfg.FaultModel})
 		}
 		for _, v := range hr.res.SampleVecs {
 			p := writeReplay(filepath.Join(work, "samples"), v, tier, hr.cfg, true)
-			pend = append(pend, pending{v, p, true, hr.cfg.Pkg})
+			pend = append(pend, pending{v, p, true, hr.cfg.Pkg, false})
 		}
 	}
 	native := map[string]*nativeResult{}
@@ -356,6 +361,11 @@ func cmdCheck(args []string) int {
 		}
 		reproduced := nr != nil && nr.Error == "" && violationReproduced(p.v, nr)
 		if *noNative {
+			reproduced = true
+		}
+		if p.fault && !reproduced {
+			// injected fault without a native counterpart: the engine's verdict stands
+			fmt.Printf("NOTE property=%s harness=%s: counterexample contains an engine-injected fault (no native fault injection); reported on the engine's verdict\n", id, p.v.Harness)
 			reproduced = true
 		}
 		vo := violOut{p.v.Harness, p.v.Msg, p.v.Kind, p.path, reproduced, ""}
